@@ -470,4 +470,137 @@ theorem greyDilation_shift_order (content big₁ big₂ : Find.Image) (off₁ of
     simp only [Function.comp_apply, shiftPos]
     rw [subPos_addPos u off₁ (by rw [hin.length_eq, (fits_length h₁.fits).1])]
 
+/-! ## locate without preprocessing under transposition (2-D) -/
+
+section transposeComp
+
+/-- what transposition does to a row of `refine_com` — every reported quantity EXCEPT `ecc`
+(`refine_transpose_ecc`: the `ecc` clause is false of the code, known finding): mask centre and
+position have their components exchanged; mass, signal, raw mass are equal; size² is equal
+(isotropic radius) or has its per-axis entries exchanged -/
+def TransRow (ry rx : Nat) (m m' : Measure) : Prop :=
+  m'.centre = swapI m.centre ∧ m'.pos = swapQ m.pos ∧ m'.mass = m.mass ∧ m'.signal = m.signal ∧
+  m'.rawMass = m.rawMass ∧ m'.rg2 = (if isotropic [ry, rx] then m.rg2 else swapQ m.rg2)
+
+/-- the arguments of `locate` for the transposed image: per-axis tuples reversed -/
+def transParams (P : Params) : Params :=
+  { P with sep := P.sep.reverse, margin := P.margin.reverse, radius := P.radius.reverse }
+
+theorem greyDilation_mem_inImage (img : Find.Image) (sep : List Rat) (pct : Rat)
+    (margin? : Option (List Nat)) (R : List Pos)
+    (hR : greyDilation img sep pct margin? false = some R) (p : Pos) (hp : p ∈ R) :
+    InImage img.shape p := by
+  obtain ⟨thr, hthr⟩ : ∃ thr, percentileThr img pct = some thr := by
+    obtain ⟨_, hcase⟩ := greyDilationK_some hR
+    rcases hcase with ⟨_, rfl⟩ | ⟨thr, hthr, _⟩
+    · simp at hp
+    · exact ⟨thr, hthr⟩
+  exact ((maxima_iff img sep pct margin? R thr hR hthr p).mp hp).1
+
+theorem greyDilation_nodup (img : Find.Image) (sep : List Rat) (pct : Rat)
+    (margin? : Option (List Nat)) (R : List Pos)
+    (hR : greyDilation img sep pct margin? false = some R) : R.Nodup := by
+  obtain ⟨_, hcase⟩ := greyDilationK_some hR
+  rcases hcase with ⟨_, rfl⟩ | ⟨thr, _, hR'⟩
+  · simp
+  · simp only [Bool.false_eq_true, if_false] at hR'
+    rw [hR']
+    exact candidates_nodup _ _ _ _
+
+/-- **locateNoPre_transpose.**  Clause "transposing an integer image located without preprocessing
+swaps the coordinate columns and changes no other reported quantity" for `locateModel` with
+`preprocess = False`, 2-D, every reported quantity except `ecc` (kept out exactly as in
+`refine_transpose`; see `refine_transpose_ecc` for what happens to it): if the model answers on the
+image (`L`) and on its transpose with the per-axis arguments reversed (`LT`), then `LT` is, up to the
+order of its rows (`np.where` order of the transposed image), row by row the transposed rows of `L`
+(`TransRow`). -/
+theorem locateNoPre_transpose (P : Params) (hP : P.preprocess = false) (H W : Nat)
+    (raw rawT : Array Nat) (hT : IsTranspose ⟨[H, W], raw⟩ ⟨[W, H], rawT⟩ H W)
+    (s0 s1 : Rat) (m0 m1 ry rx : Nat)
+    (hsep : P.sep = [s0, s1]) (hmar : P.margin = [m0, m1]) (hrad : P.radius = [ry, rx])
+    (L LT : List Measure) (hL : locateModel P [H, W] raw = some L)
+    (hLT : locateModel (transParams P) [W, H] rawT = some LT) :
+    ∃ L', L'.Perm LT ∧ List.Forall₂ (TransRow ry rx) L L' := by
+  rw [locateModel_eq_tail] at hL hLT
+  unfold workImage at hL hLT
+  have hPT : (transParams P).preprocess = false := hP
+  simp only [hP, hPT, Bool.false_eq_true, if_false, Option.bind_some] at hL hLT
+  unfold locateTail at hL hLT
+  simp only [transParams, hsep, hmar, hrad, List.reverse_cons, List.reverse_nil, List.nil_append,
+    List.cons_append] at hL hLT
+  cases hR : greyDilation ⟨[H, W], raw⟩ [s0, s1] P.pct (some [m0, m1]) false with
+  | none => rw [hR] at hL; cases hL
+  | some R =>
+    cases hRT : greyDilation ⟨[W, H], rawT⟩ [s1, s0] P.pct (some [m1, m0]) false with
+    | none => rw [hRT] at hLT; cases hLT
+    | some RT =>
+      rw [hR] at hL
+      rw [hRT] at hLT
+      injection hL with hL
+      injection hLT with hLT
+      subst hL; subst hLT
+      have hform : ∀ p ∈ R, ∃ i j, p = [i, j] ∧ i < H ∧ j < W := fun p hp =>
+        (inImage2 H W p).mp (greyDilation_mem_inImage _ _ _ _ R hR p hp)
+      have hformT := maxima_transpose_form _ _ H W hT _ _ _ RT hRT
+      have hmem := maxima_transpose _ _ H W hT s0 s1 P.pct m0 m1 R RT hR hRT
+      have ndR := greyDilation_nodup _ _ _ _ R hR
+      have ndRT := greyDilation_nodup _ _ _ _ RT hRT
+      have hperm : RT.Perm (R.map (fun p => [p.getD 1 0, p.getD 0 0])) := by
+        apply (List.perm_ext_iff_of_nodup ndRT ?_).mpr
+        · intro q
+          rw [List.mem_map]
+          constructor
+          · intro hq
+            obtain ⟨i, j, rfl, _, _⟩ := hformT q hq
+            exact ⟨[i, j], (hmem i j).mp hq, rfl⟩
+          · rintro ⟨p, hp, rfl⟩
+            obtain ⟨i, j, rfl, _, _⟩ := hform p hp
+            exact (hmem i j).mpr hp
+        · apply List.Nodup.map_on _ ndR
+          intro p hp p' hp' e
+          obtain ⟨i, j, rfl, _, _⟩ := hform p hp
+          obtain ⟨i', j', rfl, _, _⟩ := hform p' hp'
+          simp only [List.getD_cons_zero, List.getD_cons_succ, List.cons.injEq, and_true] at e
+          rw [e.1, e.2]
+      refine ⟨_, (hperm.map _).symm, ?_⟩
+      rw [List.map_map, List.forall₂_map_left_iff, List.forall₂_map_right_iff, List.forall₂_same]
+      intro p hp
+      obtain ⟨i, j, rfl, hi, hj⟩ := hform p hp
+      simp only [Function.comp_apply, List.getD_cons_zero, List.getD_cons_succ, List.map_cons,
+        List.map_nil]
+      have hag := ofArray_transpose ⟨[H, W], raw⟩ ⟨[W, H], rawT⟩ H W hT
+      simp only at hag
+      rw [refineOne_agree (radius := [rx, ry]) hag hag]
+      exact refine_transpose P.shiftThr (ofArray [H, W] raw) (ofArray [H, W] raw) ry rx H W P.maxIter
+        [Int.ofNat i, Int.ofNat j]
+
+/-- non-vacuity: a 4×5 image (peak 9 at (1,2) with neighbours 1 and 2) and `Locate.revImg` of it:
+the relation `IsTranspose` holds (checker), the model answers on both with two rows each — both
+maxima refine to the peak — at exchanged positions; the `ecc` sums are `(8, 0, 9)` for the image and
+`(10, 0, 9) = (2·9 − 8, 0, 9)` for its transpose, the known finding -/
+def exPT : Params where
+  preprocess := false
+  lshort := []
+  kernels := []
+  llong := []
+  thr := none
+  sep := [2, 2]
+  pct := 0
+  margin := [1, 1]
+  radius := [1, 1]
+  shiftThr := 3/5
+  maxIter := 2
+
+def exTI : Find.Image := ⟨[4, 5], #[0,0,0,0,0, 0,1,9,0,0, 0,0,2,0,0, 0,0,0,0,0]⟩
+
+example : IsTranspose ⟨[4, 5], exTI.data⟩ ⟨[5, 4], (revImg exTI).data⟩ 4 5 :=
+  isTransposeB_sound exTI (revImg exTI) 4 5 (by decide +kernel)
+example : (locateModel exPT [4, 5] exTI.data).map (List.map (fun m => (m.centre, m.ecc)))
+    = some [([1, 2], some (8, 0, 9)), ([1, 2], some (8, 0, 9))] := by decide +kernel
+example : (locateModel (transParams exPT) [5, 4] (revImg exTI).data).map
+    (List.map (fun m => (m.centre, m.ecc)))
+    = some [([2, 1], some (10, 0, 9)), ([2, 1], some (10, 0, 9))] := by decide +kernel
+
+end transposeComp
+
 end TrackpyV.C09
